@@ -3,8 +3,8 @@
    diagnostic class, written files with the types found in each through the
    marker methods, the file list of the success message, any other change of
    the directory tree).  [verdict] recomputes the model and compares, and
-   evaluates the property itself ([Pb], built on Model/CliSpec.spec only) on
-   the observation. *)
+   evaluates the property itself ([Pb] = CliSpec.meets against CliSpec.spec,
+   the statement of the theorems of Properties/C16.v) on the observation. *)
 From Coq Require Import List String Ascii Bool Arith NArith.
 From Shoot Require Import Model.Cli Model.CliSpec.
 Import ListNotations.
@@ -14,6 +14,7 @@ Record obs := {
   o_exit : N;                      (* process exit status *)
   o_msg : bool;                    (* a diagnostic line was printed (the cross-mark prefix of logx.Fatal) *)
   o_diag : option diag;            (* its class, when recognised *)
+  o_nothing : bool;                (* the "nothing generated" warning was printed *)
   o_files : srcmap;                (* created files: name -> types (marker-method receivers, source order) *)
   o_listed : list string;          (* the file names listed under the success message *)
   o_stray : bool                   (* anything else created, modified or deleted under the case's directory tree *)
@@ -25,7 +26,8 @@ Definition diag_eqb (a b : diag) : bool :=
   match a, b with
   | DgNotExists, DgNotExists | DgNotStruct, DgNotStruct | DgNotInFile, DgNotInFile
   | DgAlias, DgAlias | DgNonIntConst, DgNonIntConst | DgRestNotExists, DgRestNotExists
-  | DgSrcNotExists, DgSrcNotExists | DgDestNotExists, DgDestNotExists => true
+  | DgSrcNotExists, DgSrcNotExists | DgDestNotExists, DgDestNotExists
+  | DgFileNotGo, DgFileNotGo | DgFileNotExists, DgFileNotExists => true
   | _, _ => false
   end.
 
@@ -36,52 +38,49 @@ Definition odiag_eqb (a b : option diag) : bool :=
   | _, _ => false
   end.
 
-Definition types_eqb (v v' : list string) : bool :=
-  Nat.eqb (List.length v) (List.length v') && forallb (fun xy => fst xy =? snd xy) (combine v v').
+Definition is_nil {A} (l : list A) : bool := match l with [] => true | _ => false end.
 
-(* order-insensitive comparison of file maps (a directory listing has no order) *)
-Definition has_entry (m : srcmap) (kv : string * list string) : bool :=
-  existsb (fun kv' => (fst kv' =? fst kv) && types_eqb (snd kv') (snd kv)) m.
-Definition srcmap_same (a b : srcmap) : bool :=
-  Nat.eqb (List.length a) (List.length b) && forallb (has_entry b) a && forallb (has_entry a) b.
-
-(* the checks of ParseCommonFlags that look at the file system, on the skeleton:
-   -file must end in .go and name a file of the package directory *)
-Definition file_arg_ok (fl : cflags) (p : pkg) : bool :=
-  (fl_file fl =? "") || (ends_with ".go" (fl_file fl) && mem (fl_file fl) (map f_name (p_files p))).
+(* what the model says the process does *)
+Definition obs_of_out (r : cli_out) : obs :=
+  let quiet e := {| o_exit := e; o_msg := false; o_diag := None; o_nothing := false;
+                    o_files := []; o_listed := []; o_stray := false |} in
+  match r with
+  | CUsage2 => quiet 2%N
+  | CHelp0 => quiet 0%N
+  | COut (Failed d) => {| o_exit := 1; o_msg := true; o_diag := Some d; o_nothing := false;
+                          o_files := []; o_listed := []; o_stray := false |}
+  | COut (Done files listed) => {| o_exit := 0; o_msg := false; o_diag := None; o_nothing := is_nil files;
+                                   o_files := files; o_listed := listed; o_stray := false |}
+  end.
 
 Definition model_obs (c : subcmd) (args : list string) (p : pkg) : obs :=
-  let quiet e := {| o_exit := e; o_msg := false; o_diag := None; o_files := []; o_listed := []; o_stray := false |} in
-  match parse_common c args with
-  | PUsage2 => quiet 2%N
-  | PExit0 => quiet 0%N
-  | POk fl _ =>
-      if negb (file_arg_ok fl p) then
-        {| o_exit := 1; o_msg := true; o_diag := None; o_files := []; o_listed := []; o_stray := false |}
-      else match run id_oracle c fl p with
-           | Failed d => {| o_exit := 1; o_msg := true; o_diag := Some d; o_files := []; o_listed := []; o_stray := false |}
-           | Done files listed => {| o_exit := 0; o_msg := false; o_diag := None; o_files := files; o_listed := listed; o_stray := false |}
-           end
-  end.
+  obs_of_out (shoot_cli id_oracle c args p).
 
 Definition obs_eqb (m i : obs) : bool :=
   N.eqb (o_exit m) (o_exit i) && Bool.eqb (o_msg m) (o_msg i) && odiag_eqb (o_diag m) (o_diag i)
+  && Bool.eqb (o_nothing m) (o_nothing i)
   && srcmap_same (o_files m) (o_files i) && perm_eqb (o_listed m) (o_listed i)
   && Bool.eqb (o_stray m) (o_stray i).
+
+(* the observation read as an outcome: exit 0 = Done; a non-zero exit counts as
+   a clean failure only with a diagnostic and without any created file *)
+Definition obs_outcome (o : obs) : option outcome :=
+  if N.eqb (o_exit o) 0 then Some (Done (o_files o) (o_listed o))
+  else if o_msg o && is_nil (o_files o)
+       then Some (Failed (match o_diag o with Some d => d | None => DgNotExists end))
+       else None.
 
 (* The property on the observation, from the declarative spec alone. *)
 Definition Pb (c : subcmd) (args : list string) (p : pkg) (o : obs) : bool :=
   negb (o_stray o) &&
   match parse_common c args with
-  | PUsage2 => negb (N.eqb (o_exit o) 0) && match o_files o with [] => true | _ => false end
-  | PExit0 => match o_files o with [] => true | _ => false end
+  | PUsage2 => negb (N.eqb (o_exit o) 0) && is_nil (o_files o)     (* usage error: non-zero exit, no file *)
+  | PExit0 => is_nil (o_files o)
   | POk fl _ =>
-      if negb (file_arg_ok fl p) then
-        negb (N.eqb (o_exit o) 0) && o_msg o && match o_files o with [] => true | _ => false end
-      else match spec c fl p with
-           | EFail => negb (N.eqb (o_exit o) 0) && o_msg o && match o_files o with [] => true | _ => false end
-           | EFiles fs => N.eqb (o_exit o) 0 && srcmap_same (o_files o) fs && perm_eqb (o_listed o) (map fst fs)
-           end
+      match obs_outcome o with
+      | Some r => meets c p r (spec c fl p)
+      | None => false
+      end
   end.
 
 (* the case lies in the input class of an open finding, or outside the grammar *)
@@ -108,7 +107,9 @@ Fixpoint mismatches_from (i : N) (cs : list case) : list (N * N) :=
   end.
 Definition mismatches := mismatches_from 0%N.
 
-(* classes of the cases, for the coverage counters of the evidence *)
+(* classes of the cases, for the coverage counters of the evidence:
+   0 inside the theorems' guard; 1..5 the open finding classes; 8 the command
+   line is rejected by flag parsing; 9 outside the grammar *)
 Definition case_class (k : case) : N :=
   match parse_common (c_cmd k) (c_args k) with
   | POk fl _ =>
@@ -122,3 +123,7 @@ Definition case_class (k : case) : N :=
   | _ => 8%N
   end.
 Definition classes (cs : list case) : list N := map case_class cs.
+
+(* what the model predicts, printable (used by the replay files) *)
+Definition predicted (k : case) : obs := model_obs (c_cmd k) (c_args k) (c_pkg k).
+Definition property_holds (k : case) : bool := Pb (c_cmd k) (c_args k) (c_pkg k) (c_obs k).
